@@ -341,7 +341,7 @@ class Interp:
                 if _raised_inside_theory(e):
                     raise Unsupported(f"theory model {getattr(fn, '__qualname__', fn)} cannot handle this call (a value outside its vocabulary): {type(e).__name__}: {e}")
                 raise
-            except AttributeError as e:
+            except (AttributeError, IndexError, KeyError) as e:
                 # a library object the theory has no view of (e.g. a real polars expression) reached a theory model
                 if _raised_inside_theory(e):
                     raise Unsupported(f"theory model {getattr(fn, '__qualname__', fn)} cannot handle this call (a value outside its vocabulary): {type(e).__name__}: {e}")
